@@ -367,6 +367,37 @@ def manager_contract(ctx, rule='A5a'):
             ok = True
     ctx.ob(rule, fkey(fn, rule, 'marks-to-activeness'), ok, fn.where,
            'activeness is `vector != -1`, taken before the -1 marks are replaced by 0', src[:160])
+    # the array whose marks are overwritten in place is this function's own copy: the caller's vector may be a row
+    # of an encoder's table of valid vectors (numpy view) - writing 0 over its -1 marks would change what later decodes
+    # report.  `np.asarray` and friends hand back their argument when it already is an array.
+    FRESH = {'array', 'copy', 'deepcopy', 'where', 'zeros', 'zeros_like', 'ones', 'empty', 'full', 'list', 'tuple'}
+    ALIAS = {'asarray', 'asanyarray', 'ascontiguousarray', 'atleast_1d', 'ravel', 'reshape', 'view', 'squeeze'}
+    n_st = 0
+    for d in defs:
+        arr = d.ast.value.left.id
+        stores = [n for n in cfg.nodes if n.kind == 'stmt' and isinstance(n.ast, (ast.Assign, ast.AugAssign)) and
+                  any(isinstance(t, ast.Subscript) and norm(t.value) == arr
+                      for t in (n.ast.targets if isinstance(n.ast, ast.Assign) else [n.ast.target]))]
+        if not stores:
+            continue
+        n_st += 1
+        adefs = [a for a in walk_fn(fn) if isinstance(a, ast.Assign) and len(a.targets) == 1 and norm(a.targets[0]) == arr]
+        def fresh(v):
+            if isinstance(v, ast.Call):
+                nm = call_name(v)
+                if nm in ALIAS:
+                    return False
+                if nm in FRESH:
+                    cp = kwarg(v, 'copy')
+                    return not (isinstance(cp, ast.Constant) and cp.value is False)
+            return False
+        ok_f = bool(adefs) and all(fresh(a.value) for a in adefs) and arr not in fn.params
+        ctx.ob(rule, fkey(fn, rule, 'marks-overwritten-in-own-copy'), ok_f, fn.where,
+               f'`{arr}`, whose -1 marks are overwritten in place, is a new array made in this function (np.array / '
+               f'copy), never the caller\'s vector or an array that may alias it (np.asarray)',
+               '; '.join(short(a, 60) for a in adefs) or f'`{arr}` is not defined here')
+    if not n_st and defs:
+        ctx.note('A5a: the activeness function does not overwrite marks in place (nothing to alias)')
     return n + 1
 
 
